@@ -3,6 +3,9 @@
 set -e
 cd "$(dirname "$0")/.."
 N="$1"
+# local evidence rewrites from earlier runs must not block the merge
+git checkout -- evidence 2>/dev/null || true
+if ! git diff --quiet; then echo "working tree has uncommitted changes; commit first"; git status --short | head; exit 1; fi
 git merge --no-commit "wip-c$N" >/dev/null 2>&1 || {
   # generated files are the only expected conflicts: take ours and regenerate
   for f in MANIFEST.json lean/Sqfs/Generated/Consts.lean evidence/*.json; do git checkout --ours -- "$f" 2>/dev/null && git add "$f" 2>/dev/null || true; done
@@ -14,4 +17,5 @@ python3-vt tools/mkmanifest.py
 tools/check "C$N" --tier quick 2>&1 | grep -E "^(VIOLATION|KNOWN-FINDING|C$N:)" | head -30
 git add -A
 git commit -qm "Merge C$N from wip-c$N" || true
+git merge-base --is-ancestor "wip-c$N" HEAD || { echo "ERROR: wip-c$N is not merged"; exit 1; }
 git log --oneline | head -1
